@@ -12,6 +12,7 @@ Open Scope Z_scope.
 
 Inductive c12case :=
 | C12Seq (c : svcase)
+| C12Walk (c : svcase)      (* any conversation without transport faults that ends with every handler returned and the probe *)
 | C12Method (raw : bytes) (r : option (bytes * bytes))
 | C12Shape (raw : bytes) (k : mkind).
 
@@ -137,6 +138,7 @@ Definition probe_answered (c : svcase) : bool :=
   | CSrv acts observed =>
       match last_deliver acts with
       | Some f =>
+          (* the probe is the only envelope with its id *)
           existsb (fun w => (eid (f_env w) =? fid f) && has_body w && negb (is_rst w)
                             && match estatus (f_env w) with None => true | Some _ => false end)
                   (flat_map o_writes observed)
@@ -152,9 +154,21 @@ Definition spec_seq (c : svcase) : list nat :=
       else [6%nat]    (* a conversation of this rig must never block the read loop or end the connection *)
   end.
 
+(* at the end: nothing unread, registry empty, no handler goroutine, connection alive *)
+Definition ends_idle (c : svcase) : bool :=
+  match c with
+  | CSrv _ observed =>
+      match last (map Some observed) None with
+      | Some o => (o_inbox o =? 0) && opt_eqb Z.eqb (o_reg o) (Some 0) && (o_hs o =? 0) && negb (o_serve o)
+                  && (o_writer o =? 1) && (o_workers o =? Z.of_nat nworkers)
+      | None => true
+      end
+  end.
+
 Definition check_case (c : c12case) : list nat :=
   match c with
   | C12Seq sc => check_agree sc ++ nodup Nat.eq_dec (spec_seq sc)
+  | C12Walk sc => check_agree sc ++ (if probe_answered sc then [] else [4%nat]) ++ (if ends_idle sc then [] else [6%nat])
   | C12Method raw r => if opt_eqb pair_bytes_eqb (parse_method raw) r then [] else [1%nat]
   | C12Shape raw k => if mkind_eqb (kind_of_method raw) k then [] else [1%nat]
   end.
